@@ -10,6 +10,12 @@ def custom_native(ip, runner):
                            'ssh_audit:process_commandline')]
 
 
+def custom_resolve(ip, runner):
+    return [native_bounded(runner, 'SSH_Socket._resolve', 'only addresses of the requested families are yielded, in the requested family order (stable within a family), stream sockets only',
+                           c18_target.NATIVE_RESOLVE, '5 family preferences x 7 synthetic resolver answers (v4-first, v6-first, interleaved, with a datagram entry, single family, empty)',
+                           'SSH_Socket._resolve')]
+
+
 def custom_crosscheck(ip, runner):
     n, err = c18_target.crosscheck_regex()
     if err:
@@ -21,14 +27,14 @@ def build(chk, ip, runner):
     chk.design_ref = 'DESIGN.md section 5 C18'
     ip.models['object.__setattr__'] = c18_target.m_object_setattr
     chk.units = c18_target.units()
-    chk.customs = [custom_native, custom_crosscheck]
+    chk.customs = [custom_native, custom_crosscheck, custom_resolve]
     chk.level = 'other'
     chk.explanation = ('parse_host_and_port proved against the documented reading of each spelling (six structured input shapes, '
                        'unbounded host and port strings); port validation proved; argparse-driven command-line and targets-file '
                        'handling only by a bounded run-time contract check')
     chk.assumptions = ["re.match capture model for r'^\\[([^\\]]+)\\](?::(\\d+))?$' (unambiguous: group 1 cannot contain ']')",
                        'argparse, socket.getaddrinfo are external (resolver answers arbitrary)']
-    chk.not_decided = ['address-family filtering and ordering in SSH_Socket._resolve (generator function: outside the modelled subset)',
+    chk.not_decided = ['address-family filtering and ordering in SSH_Socket._resolve is only bounded (generator function: outside the modelled subset)',
                        'the label printed for the target (covered under C01/C15 rendering, not here)']
 
 
